@@ -14,11 +14,11 @@ from ..core.framework import Ctx, b2s
 
 SPEC = {
     "modules": ["HC.Props.C06"],
-    "extracted": ["Guards", "Consts", "H11Tables"],
+    "extracted": ["Guards", "Consts", "H11Tables", "Runtime"],
     "technique": "Lean 4 invariants over all op sequences of an executable model of H11Protocol composed with the h11 connection-state machine (tables extracted from the installed library): a live stream is never overwritten, recycle iff both sides DONE and not terminated, close announced, nothing served after Closed; tied by op-by-op differential execution against the real H11Protocol with library taps, plus end-to-end pipelines on both workers",
-    "level_text": "Proved in Lean for every sequence of library events, application sends and closes (any pipeline length, any interleaving, every keep_alive_max_requests): a new request is only ever accepted when no stream is live (so requests are served strictly one at a time and a later request's bytes cannot reach an earlier instance, the parser being parked between them); the connection is recycled exactly when request and response are both complete, neither side asked to close and shutdown has not begun - otherwise Closed is sent and no further request is accepted; the response head announces close whenever the cause is known when the head is sent (client Connection: close, HTTP/1.0, per-connection maximum reached - extracted comparator -, server-generated error responses); once either side asked to close - the client, the request maximum, or the APPLICATION with its own `connection: close` response header, which HTTPStream hands to h11 unchanged (extracted) - h11's keep-alive flag is off for good and no later stream end recycles the connection (asked_to_close_never_reused, over arbitrary further ops); `request_complete` only ever refers to the request in progress (reset at each Request, extracted), so a message that goes wrong INSIDE its body is never ignored, on a reused connection as on a fresh one: Closed is sent, preceded by the hinted error response with `connection: close` while h11's writer is IDLE / SEND_RESPONSE (malformed_body_closes); the guard under which _handle_events ignores a RemoteProtocolError is extracted as a function of its atoms (stream live, request_complete, h11's two states) and evaluated by the model's malformed branch: it is `stream is not None and request_complete` and does not look at h11's writer (error_ignored_only_after_complete_request), so an application that has begun its response while the body is still arriving does not make a framing error in the rest of the body go unnoticed.  Tie: a deterministic corpus (reused connection + malformed chunk / truncated body / garbage head in every segmentation class and application timing; application-requested close followed by further requests) and thousands of generated pipelines (1-6 requests; content-length, chunked, HEAD, Expect, HTTP/1.0, close, malformed / aborted messages at any position, application-requested close; every segmentation class; applications answering before/while/after/never reading the body - including streaming applications that BEGIN the response early and finish it when the body has ended or they are told http.disconnect, with the part of the body that goes wrong arriving in a later read - crashing at every point) driven through the real H11Protocol with taps on h11.Connection and compared with the model after every op (outputs, h11 our/their state, reader parked?, current stream, request counter); end-to-end on both workers with an independent client parser.",
+    "level_text": "Proved in Lean for every sequence of library events, application sends and closes (any pipeline length, any interleaving, every keep_alive_max_requests): a new request is only ever accepted when no stream is live (so requests are served strictly one at a time and a later request's bytes cannot reach an earlier instance, the parser being parked between them); the connection is recycled exactly when request and response are both complete, neither side asked to close and shutdown has not begun - otherwise Closed is sent and no further request is accepted; the response head announces close whenever the cause is known when the head is sent (client Connection: close, HTTP/1.0, per-connection maximum reached - extracted comparator -, server-generated error responses); once either side asked to close - the client, the request maximum, or the APPLICATION with its own `connection: close` response header, which HTTPStream hands to h11 unchanged (extracted) - h11's keep-alive flag is off for good and no later stream end recycles the connection (asked_to_close_never_reused, over arbitrary further ops); `request_complete` only ever refers to the request in progress (reset at each Request, extracted), so a message that goes wrong INSIDE its body is never ignored, on a reused connection as on a fresh one: Closed is sent, preceded by the hinted error response with `connection: close` while h11's writer is IDLE / SEND_RESPONSE (malformed_body_closes); the guard under which _handle_events ignores a RemoteProtocolError is extracted as a function of its atoms (stream live, request_complete, h11's two states) and evaluated by the model's malformed branch: it is `stream is not None and request_complete` and does not look at h11's writer (error_ignored_only_after_complete_request), so an application that has begun its response while the body is still arriving does not make a framing error in the rest of the body go unnoticed; an exchange aborted by the CLIENT (the write of the response fails) ends the reuse as well: both workers' `protocol_send(RawData)` call `protocol.handle(Closed())` on a failed write (failed_write_tells_protocol, on the `Runtime` records extracted from the two tcp_server.py - the read loop, parked behind a pipelined request, would never see the end of the stream), and once `self.closed` is set inside an exchange no later op - the application finishing its response into the void, h11 reaching DONE / DONE, the released reader - recycles the connection, starts an instance or lets h11 yield the parked Request (aborted_exchange_never_reused).  Tie: a deterministic corpus (reused connection + malformed chunk / truncated body / garbage head in every segmentation class and application timing; application-requested close followed by further requests) and thousands of generated pipelines (1-6 requests; content-length, chunked, HEAD, Expect, HTTP/1.0, close, malformed / aborted messages at any position, application-requested close; every segmentation class; applications answering before/while/after/never reading the body - including streaming applications that BEGIN the response early and finish it when the body has ended or they are told http.disconnect, with the part of the body that goes wrong arriving in a later read - crashing at every point) driven through the real H11Protocol with taps on h11.Connection and compared with the model after every op (outputs, h11 our/their state, reader parked?, current stream, request counter); end-to-end on both workers with an independent client parser; end-to-end abort sessions (2-4 pipelined requests, the client resets the connection / every later write fails while the response of one of them is outstanding - before it begins, after its head, inside its body - with the later requests parked behind it): no instance starts once a write has failed or a read has raised, and the transport is closed.",
     "level_note": "Trusted: Lean kernel; model HC/Proto/H11.lean + stream models; H11M is a transcription of h11/_state.py with its two tables extracted from the installed library and is *assumed* for the theorems (sampled: our/their state compared after every op); h11's byte-level parser and serialiser are library behaviour (events are inputs, wire bytes parsed by an independent h11 client).  The announcement of close is required only when the cause precedes the head (an application that answers without reading the body cannot have been announced).",
-    "rule": "pipelines x request kinds (incl. malformed / aborted) x segmentation x app timing x app-requested close x keep_alive_max; distinct = (pipeline length, request kinds, split class, app timing classes, max, app close); non-trivial = at least two requests, a connection-close cause or a malformed message",
+    "rule": "pipelines x request kinds (incl. malformed / aborted) x segmentation x app timing x app-requested close x keep_alive_max; distinct = (pipeline length, request kinds, split class, app timing classes, max, app close); non-trivial = at least two requests, a connection-close cause or a malformed message; abort sessions: (request kinds, split, aborted exchange, point in its response, reset | failing writes, worker)",
     "trusted": ["h11 0.16 byte parser/serialiser", "asyncio/trio schedulers in the end-to-end layer"],
     "partial": ["F26 (bytes after a Connection: close request in the same read → 400) if listed in known_findings.json",
                 "F08 (known): an application that asks to close and answers without reading a body of >= max_app_queue_size pieces blocks in its own final send (disconnect put on the full queue): the close is never carried out"],
@@ -280,29 +280,135 @@ def monitor(ctx: Ctx, case: dict, obs: List[dict], policy=None) -> None:
                 ctx.violation("close_not_announced", case, {"k": j, "headers": finals[j]["headers"]}, {**sig, "cause": "malformed"})
 
 
+def _app_scripts(case: dict, pause: Optional[dict] = None) -> List[list]:
+    """the runner's script of every application instance (one per request).  `pause = {"at": k, "after": p, "seconds": s}`:
+    instance k sleeps s seconds after its first p sends (p = 0: before its response begins)"""
+    scripts = []
+    for k, r in enumerate(case["requests"]):
+        a = case["apps"][k % len(case["apps"])]
+        steps: List[list] = []
+        if a["when"] in ("after_body", "mid"):
+            steps.append(["recv_body"] if a["when"] == "after_body" else ["recv"])
+        sent = 0
+        for m in HS.app_messages(r, a):
+            if pause is not None and pause["at"] == k and pause["after"] == sent:
+                steps.append(["sleep", pause["seconds"]])
+            if m is None:
+                if a["crash"] in ("before_start", "after_start", "after_first_chunk"):
+                    steps.append(["raise"])
+                break
+            if a["when"] == "echo" and sent == a.get("early", 1):
+                steps.append(["recv_body"])         # until the body has ended or http.disconnect says the client is gone
+            steps.append(["send", m])
+            sent += 1
+        scripts.append(steps)
+    return scripts
+
+
+# ---------------------------------------------------------------------------------------------------------------------------
+# "an aborted message": the CLIENT goes away while a response is outstanding.  The exchange cannot be completed, so the
+# connection must not be reused: no application instance is started once the server has seen the abort - whichever side of
+# the worker's connection handler sees it first.  With pipelined requests behind the outstanding response the READER is parked
+# (h11 PAUSED, waiting on can_read) and never reads the end of the stream: the WRITER's failure is the only notice the
+# protocol gets, and the requests parked behind it must stay unserved.
+# ---------------------------------------------------------------------------------------------------------------------------
+ABORT_HOWS = ["reset", "fail_writes"]       # TCP reset (reads and writes fail) | the peer has gone but only writes show it yet
+
+
+def _abort_case(reqs, apps, split, at, after, how, seed, kmax=1000, corpus_case=False) -> dict:
+    return {"family": "abort", "requests": reqs, "apps": apps, "split": split, "keep_alive_max": kmax, "seed": seed, "eof": True,
+            "abort": {"at": at, "after": after, "how": how}, **({"corpus": True} if corpus_case else {})}
+
+
+def abort_corpus() -> List[dict]:
+    """deterministic: 2 / 3 pipelined requests, the client goes away while the response of the first / second is outstanding -
+    before it begins, after its head, after a first piece of its body - by reset or with writes failing only; all requests in
+    one read or one read per request (all of them sent before the client goes away)"""
+    import random
+    rng = random.Random(612)
+    get = {"kind": "plain", "method": "GET", "target": "/a", "headers": [["Host", "x"]], "version": "1.1", "body": "", "chunks": None}
+    post = {"kind": "body_chunked", "method": "POST", "target": "/b", "headers": [["Host", "x"]], "version": "1.1", "body": "", "chunks": ["abc"]}
+    ok = {"when": "after_body", "status": 200, "chunks": ["ab", "cd"], "content_length": True, "crash": None, "ws": "close"}
+    cases = []
+    for how in ABORT_HOWS:
+        for after in (0, 1, 2):
+            for reqs, at in (([get, get], 0), ([get, post, get], 1), ([post, get, get], 0)):
+                for split in ("one", "per_request"):
+                    cases.append(_abort_case(reqs, [ok], split, at, after, how, rng.randrange(1 << 30), corpus_case=True))
+    # breadth first: the quick tier takes a prefix
+    rng.shuffle(cases)
+    return cases
+
+
+def gen_abort(ctx: Ctx, idx: int) -> dict:
+    rng = ctx.rng
+    n = rng.choice([2, 2, 3, 4])
+    opts = {"big": False, "weights": [6, 4, 4, 0, 0, 0, 2, 0, 0, 0, 0]}
+    reqs = [HS.gen_request(rng, i, opts) for i in range(n)]
+    apps = [HS.gen_app(rng, r, {"no_crash": True}) for r in reqs]
+    # mostly with requests parked behind the outstanding response; sometimes the last one (the reader is then not parked)
+    at = rng.randrange(n - 1) if rng.random() < 0.8 else n - 1
+    msgs = [m for m in HS.app_messages(reqs[at], apps[at]) if m is not None]
+    after = rng.randrange(len(msgs))
+    data_len = sum(len(HS.request_bytes(r)) for r in reqs)
+    split = rng.choice(["one", "per_request", "random", "bytewise" if data_len < 400 else "random"])
+    return _abort_case(reqs, apps, split, at, after, rng.choice(ABORT_HOWS), rng.randrange(1 << 30), kmax=rng.choice([1000, 1000, 3]))
+
+
+def check_abort(ctx: Ctx, cases: List[dict]) -> None:
+    import random
+    for case in cases:
+        rng = random.Random(case["seed"])
+        reads = _reads(case, rng)
+        reqs, ab = case["requests"], case["abort"]
+        scripts = _app_scripts(case, {"at": ab["at"], "after": ab["after"], "seconds": 0.5})
+        for worker in ([case["worker"]] if case.get("worker") else ["asyncio", "trio"]):
+            async def client(io):
+                for chunk in reads:
+                    await io.send(chunk)
+                await io.sleep(0.2)             # instance `at` is now inside its pause, everything before it has been served
+                if ab["how"] == "reset":
+                    await io.reset()
+                else:
+                    io.fail_writes()
+                await io.sleep(1.0)
+                await io.eof()
+            res = R.RUNNERS[worker]({"keep_alive_max_requests": case["keep_alive_max"], "keep_alive_timeout": 3}, None, client, scripts, tail=10)
+            ctx.evaluations += 1
+            ctx.count("e2e.worker", worker)
+            ctx.count("abort.how", ab["how"])
+            ctx.count("abort.parked_behind", len(reqs) - 1 - ab["at"])
+            ctx.distinct(["abort", [r["kind"] for r in reqs], case["split"], ab["at"], ab["after"], ab["how"], worker])
+            sig = {"family": "abort", "worker": worker, "how": ab["how"]}
+            wcase = {**case, "worker": worker}
+            if res["error"] or res["loop_errors"]:
+                ctx.violation("handler_exception", wcase, {"error": res["error"], "loop": res["loop_errors"]}, {**sig, "error": str(res["error"])})
+                continue
+            labels = res["labels"]
+            if len(res["apps"]) <= ab["at"]:
+                ctx.count("abort.not_reached", worker)          # (an earlier exchange already ended the connection)
+                continue
+            # the first thing that shows the server that the client has gone: a write that fails, a read that raises
+            noticed = next((i for i, l in enumerate(labels) if l[0] >= 200 and (l[1] == "srvWriteFail" or (l[1] == "srvRead" and l[2:3] == ["reset"]))), None)
+            if noticed is None:
+                ctx.count("abort.unnoticed", worker)
+                continue
+            late = [l for l in labels[noticed + 1:] if l[1] == "appStart"]
+            if late:
+                ctx.violation("served_after_abort", wcase,
+                              {"aborted_exchange": ab["at"], "instances_started": len(res["apps"]), "noticed": labels[noticed], "started_after": late[:3],
+                               "paths": [a["scope"].get("path") for a in res["apps"]], "closed_at": res["closed_at"]}, sig)
+            if res["closed_at"] is None:
+                ctx.violation("abort_not_closed", wcase, {"aborted_exchange": ab["at"], "noticed": labels[noticed], "handler_done": res["handler_done"]}, sig)
+
+
 def check_e2e(ctx: Ctx, cases: List[dict]) -> None:
     import random
     for case in cases:
         rng = random.Random(case["seed"])
         reads = _reads(case, rng)
         reqs = case["requests"]
-        scripts = []
-        for k, r in enumerate(reqs):
-            a = case["apps"][k % len(case["apps"])]
-            steps: List[list] = []
-            if a["when"] in ("after_body", "mid"):
-                steps.append(["recv_body"] if a["when"] == "after_body" else ["recv"])
-            sent = 0
-            for m in HS.app_messages(r, a):
-                if m is None:
-                    if a["crash"] in ("before_start", "after_start", "after_first_chunk"):
-                        steps.append(["raise"])
-                    break
-                if a["when"] == "echo" and sent == a.get("early", 1):
-                    steps.append(["recv_body"])         # until the body has ended or http.disconnect says the client is gone
-                steps.append(["send", m])
-                sent += 1
-            scripts.append(steps)
+        scripts = _app_scripts(case)
         # a body that goes wrong in a read of its own arrives a little later than what precedes it (the application has run by then)
         waits = set()
         if case["split"] == "tail_apart":
@@ -411,10 +517,15 @@ def run(ctx: Ctx) -> None:
     e2e_started = [c for c in fixed if any(a["when"] == "echo" for a in c["apps"]) and c["split"] in ("tail_apart", "per_request")
                    and not any(c is d for d in e2e_fixed)]
     check_e2e(ctx, e2e_fixed + e2e_started[: ctx.budget(10, 40)] + cases[: ctx.budget(60, 850)])
+    aborted = abort_corpus()
+    ctx.count("corpus.abort_sessions", len(aborted))
+    check_abort(ctx, aborted[: ctx.budget(18, 36)] + [gen_abort(ctx, i) for i in range(ctx.budget(12, 150))])
 
 
 def replay(ctx: Ctx, case: dict) -> None:
-    if case.get("worker"):
+    if case.get("family") == "abort":
+        check_abort(ctx, [case])
+    elif case.get("worker"):
         check_e2e(ctx, [case])
     else:
         check_direct(ctx, [case])
